@@ -156,7 +156,14 @@ pub fn run_bump(data: &[u8], ctx: &mut Ctx) -> CaseResult {
 /// One IXFR exchange: zone at serial a+step (previous version a, diff
 /// available), client at `a + client_off`. Returns the response records with
 /// every SOA serial made relative to `a`.
-fn ixfr_shape(apex: &Vec<Vec<u8>>, old_t: &VersionM, new_t: &VersionM, a: u32, step: u32, client_off: u32, id: u16, strict: bool) -> Result<Option<Vec<(Vec<u8>, u16, u32, Vec<u8>)>>, String> {
+/// What the receiving side (XfrResponseInterpreter + ZoneUpdater on a zone
+/// holding the previous version) made of the response stream: error stage (if
+/// any), the kinds of the updates it produced, and whether interpreter and
+/// updater consider the transfer finished.
+type ClientView = (Option<&'static str>, Vec<u8>, bool, bool);
+type Shape = (Vec<(Vec<u8>, u16, u32, Vec<u8>)>, ClientView);
+
+fn ixfr_shape(apex: &Vec<Vec<u8>>, old_t: &VersionM, new_t: &VersionM, a: u32, step: u32, client_off: u32, id: u16, strict: bool) -> Result<Option<Shape>, String> {
     let mut old = old_t.clone();
     let mut new = new_t.clone();
     old.soa.serial = a;
@@ -170,7 +177,15 @@ fn ixfr_shape(apex: &Vec<Vec<u8>>, old_t: &VersionM, new_t: &VersionM, a: u32, s
     let req = mk_request(apex, &ReqOpts { ixfr_from: Some(client), udp: None, reserve: 0, id });
     let msgs = block_on_paused(serve_loose(provider, &req))?;
     let recs = records_of(&msgs)?;
-    Ok(Some(
+    // the receiving side: a zone holding the previous version takes the stream
+    let client_view: ClientView = match zone_from_version(apex, &old) {
+        Ok(old_zone) => {
+            let rx = block_on_paused(receive(&old_zone, &msgs, false));
+            (rx.err.as_ref().map(|e| e.stage), rx.kinds.clone(), rx.interp_finished, rx.updater_finished)
+        }
+        Err(_) => (Some("setup"), vec![], false, false),
+    };
+    Ok(Some((
         recs.into_iter()
             .map(|r| {
                 let mut rd = r.rdata.clone();
@@ -186,7 +201,8 @@ fn ixfr_shape(apex: &Vec<Vec<u8>>, old_t: &VersionM, new_t: &VersionM, a: u32, s
                 (gn_wire(&r.owner), r.rtype, r.ttl, rd)
             })
             .collect(),
-    ))
+        client_view,
+    )))
 }
 
 fn gn_wire(l: &Vec<Vec<u8>>) -> Vec<u8> {
@@ -245,6 +261,8 @@ pub fn run_ixfr(data: &[u8], ctx: &mut Ctx) -> CaseResult {
         Ok(None) => { ctx.class("users-setup-skipped"); return Ok(()); }
         Err(e) => vfail!("users:ixfr:sender-error", "previous {a:#x} zone {b:#x} client {client:#x}: {e}"),
     };
+    let (base, base_client) = base;
+    let (shifted, shifted_client) = shifted;
     ctx.class("users-ixfr-ran");
     ctx.class(if base.len() == 1 { "ixfr-answer-single-soa" } else { "ixfr-answer-transfer" });
     // record order inside a transfer follows the library's hash maps: compare
@@ -256,6 +274,23 @@ pub fn run_ixfr(data: &[u8], ctx: &mut Ctx) -> CaseResult {
             "IXFR answer depends on where the serials sit: with previous/zone/client serials 0x1000/{:#x}/{:#x} the server sends {} records, with {a:#x}/{b:#x}/{client:#x} (same differences) it sends {} records",
             0x1000u32.wrapping_add(step), 0x1000u32.wrapping_add(client_off), base.len(), shifted.len()
         );
+    }
+    // the receiving side (XFR client: XfrResponseInterpreter + ZoneUpdater)
+    // must take the same decisions about the same stream wherever the serials
+    // sit: accept/reject at the same stage, same sequence of update kinds,
+    // same finished state
+    if base_client.0 != Some("setup") && shifted_client.0 != Some("setup") {
+        ctx.class(if base_client.0.is_none() { "ixfr-receiver-accepts" } else { "ixfr-receiver-rejects" });
+        if base_client.0.is_none() && base_client.2 && straddle {
+            ctx.class("ixfr-receiver-applies-diff-across-wrap");
+        }
+        if base_client != shifted_client {
+            vfail!(
+                format!("users:ixfr:receiver-not-translation-invariant:client-{relation}"),
+                "the XFR client treats the same response stream differently depending on where the serials sit: with previous/zone serials 0x1000/{:#x} -> error stage {:?}, {} updates, interpreter finished {}, updater finished {}; with {a:#x}/{b:#x} (same differences) -> error stage {:?}, {} updates, interpreter finished {}, updater finished {}",
+                0x1000u32.wrapping_add(step), base_client.0, base_client.1.len(), base_client.2, base_client.3, shifted_client.0, shifted_client.1.len(), shifted_client.2, shifted_client.3
+            );
+        }
     }
     Ok(())
 }
